@@ -39,9 +39,37 @@ def pmap(fn, tasks, procs=None, fresh=False):
 
 
 def run_fresh(fn, task):
-    """fn(task) in one newly forked process (the caller must not have exercised the code under test)"""
-    with _CTX.Pool(processes=1, maxtasksperchild=1) as pool:
-        return pool.map(_call, [(fn, task)], chunksize=1)[0]
+    """fn(task) in one newly forked process (plain os.fork, so it also works inside a pool worker or inside
+    another run_fresh); the result comes back pickled through a pipe; an exception in the child is re-raised"""
+    import pickle
+    import traceback
+
+    r, w = os.pipe()
+    pid = os.fork()
+    if pid == 0:
+        code = 0
+        try:
+            os.close(r)
+            try:
+                payload = pickle.dumps(("ok", fn(task)))
+            except BaseException as e:  # noqa
+                payload = pickle.dumps(("err", f"{type(e).__name__}: {e}\n{traceback.format_exc()}"))
+            with os.fdopen(w, "wb") as f:
+                f.write(payload)
+        except BaseException:  # noqa
+            code = 1
+        finally:
+            os._exit(code)
+    os.close(w)
+    with os.fdopen(r, "rb") as f:
+        data = f.read()
+    os.waitpid(pid, 0)
+    if not data:
+        raise RuntimeError("run_fresh: the child process died without an answer")
+    status, value = pickle.loads(data)
+    if status == "err":
+        raise RuntimeError("run_fresh: " + value)
+    return value
 
 
 def chunks(n, parts):
